@@ -78,6 +78,11 @@ def gen_case(rng, tier):
     chosen = rng.sample(allvars, nf)
     fixes = [[v[0], rand_value(rng, v[1])] for v in chosen]
     c = {"kind": kind, "exprs": exprs, "allvars": allvars, "fixes": fixes}
+    if kind.startswith('cqm'):
+        # a one-hot constraint marked discrete over some binary variables: fixing inside it exercises the markers
+        bins = [v[0] for v in allvars if v[1] == 'BINARY']
+        if len(bins) >= 2 and rng.random() < 0.5:
+            c["discrete"] = rng.sample(bins, rng.randint(2, len(bins)))
     # label shapes: sometimes the default integer labels 0..n-1 in order (a range-labelled Variables object)
     if rng.random() < 0.3:
         c = relabel_range(c)
@@ -108,6 +113,8 @@ def relabel_range(c):
     # the model variables must come first and in order for the labels to form a range
     out["allvars"] = [[r(v[0])] + list(v[1:]) for v in c["allvars"]]
     out["fixes"] = [[r(l), x] for l, x in c["fixes"]]
+    if c.get("discrete"):
+        out["discrete"] = [r(l) for l in c["discrete"]]
     out["range_labels"] = True
     return out
 
@@ -132,6 +139,8 @@ def build_cqm(c):
                     kw["penalty"] = 'linear'
             lab = cqm.add_constraint_from_model(qm, e["sense"], rhs=float(F(e["rhs"])), label=f"c{i}", **kw)
             labels.append(lab)
+    if c.get("discrete"):
+        labels.append(cqm.add_discrete([dec_label(l) for l in c["discrete"]], label="disc"))
     return cqm, labels
 
 
@@ -169,8 +178,9 @@ def raw_mcqm(cqm, labels):
         sv = k.sense.value if hasattr(k.sense, 'value') else str(k.sense)
         w = k.lhs.weight()
         pen = {None: 0, 'linear': 1, 'quadratic': 2}[None if k.lhs.penalty() is None else str(k.lhs.penalty())]
-        cons.append("(Expr.mkMC %s %s %s %s %s false)" % (raw_mexpr(k.lhs), cnat(SENSE[sv]), cq(F(k.rhs)),
-                                                        "None" if w == float('inf') else "(Some %s)" % cq(F(w)), cnat(pen)))
+        cons.append("(Expr.mkMC %s %s %s %s %s %s)" % (raw_mexpr(k.lhs), cnat(SENSE[sv]), cq(F(k.rhs)),
+                                                        "None" if w == float('inf') else "(Some %s)" % cq(F(w)), cnat(pen),
+                                                        "true" if k.lhs.is_discrete() else "false"))
     return "(Expr.mkM %s %s %s)" % (info, raw_mexpr(cqm.objective), clist(cons))
 
 
